@@ -49,7 +49,9 @@ def contracts():
             'calls[2][1][0] == calls[1][2] and calls[2][1][1] == val(self) '
             'and result == calls[2][2])',
         ],
-        serves=('C01',), native=False))
+        # (C18: yaql.eval and host callbacks parse on a shared engine WHILE
+        # other threads evaluate - the private lexer is what makes that safe)
+        serves=('C01', 'C18'), native=False))
     # the statement a parse returns belongs to the engine that was ASKED
     # (its options - limits, quotas, conversion switches - govern every
     # evaluation of it); a copy carries the merged options and shares
